@@ -597,6 +597,35 @@ def r35_regrid(repo, sink):
             sink.unknown("R35", "tree:RegridNearest", ug, "dimension check raised on the abstract grids")
         else:
             raise
+    # identical grid on both sides with a masked source: nearest still has to fill the masked cells
+    class _Same(_G):
+        def call_hook(self, fv, args, kwargs, node, mod):
+            if isinstance(fv, Closure) and getattr(fv.func, "name", "") == "_need_mask":
+                return args[0] == Sym("IN_MASK")
+            return super().call_hook(fv, args, kwargs, node, mod)
+
+        def compare(self, op, left, right, node):
+            if isinstance(left, Obj) and isinstance(right, Obj) and isinstance(op, (ast.Eq, ast.NotEq)):
+                r = left is right
+                return r if isinstance(op, ast.Eq) else not r
+            return super().compare(op, left, right, node)
+
+    it = _Same(repo, True)
+    o = _regrid_obj(repo, rep)
+    o.fields["output_grid"] = o.fields["input_grid"]
+    o.fields["output_mask"] = Sym("enum", "Mask", "NONE")
+    try:
+        it.run(ug, [], self_obj=o)
+        ids = o.fields["ids"]
+        got = it.run(gd, [Sym("t"), Sym("target")], self_obj=o)
+        ok = ids is not None and _has_op(ids, "query") and isinstance(got, Sym) and got.op == "fc" and _has_op(got, "select")
+        sink.check(ok, "R35", "same-grid-masked-source", ug,
+                   ok="same grid on both sides, masked source, unmasked target: the nearest unmasked source cell is still looked up",
+                   bad=f"same grid on both sides with a masked source: ids={ids!r}, delivered {got!r}: masked source cells are passed "
+                       "through instead of taking the nearest unmasked value")
+    except Raised as r:
+        sink.unknown("R35", "same-grid-masked-source", ug, f"raises {r.name}")
+    _regrid_linear_mask(repo, sink)
     # linear: structural pairing (its data path is numeric; decided only as far as order / shape / mask arguments go)
     if repo.has_cls("RegridLinear"):
         cl = repo.cls("RegridLinear")
@@ -633,6 +662,108 @@ def r35_regrid(repo, sink):
     ok = len(ret) == 1 and isinstance(ret[0].value, ast.Call) and call_name(ret[0].value) == "copy_with" and \
         {k.arg: U(k.value) for k in ret[0].value.keywords} == {"grid": "self.output_grid", "mask": "self.output_mask"}
     sink.check(ok, "R35", "delivered-info", g, ok="delivers the source info with output grid and output mask", bad="regridder does not deliver (output grid, output mask)")
+
+
+def _has_op(v, op):
+    if isinstance(v, Sym):
+        return v.op == op or any(_has_op(a, op) for a in v.args)
+    return False
+
+
+def _regrid_linear_mask(repo, sink):
+    """Decision table of the output mask chosen by RegridLinear without nearest filling."""
+    if not repo.has_cls("RegridLinear"):
+        return
+    c = repo.cls("RegridLinear")
+    ug = repo.resolve(c, "_update_grid_specs", "method")
+    FLEX, NONE_ = Sym("enum", "Mask", "FLEX"), Sym("enum", "Mask", "NONE")
+    OUTL, GIVEN = Sym("outlier_mask"), Sym("given_mask")
+
+    class _L(_RegridInterp):
+        def __init__(self, repo, any_outlier, sub):
+            super().__init__(repo, False)
+            self.any_outlier, self.sub = any_outlier, sub
+
+        def call_hook(self, fv, args, kwargs, node, mod):
+            if isinstance(fv, Closure):
+                n = getattr(fv.func, "name", "")
+                if n in ("_get_out_coords", "_get_in_coords"):
+                    return Sym(n)
+                if n == "is_sub_mask":
+                    return self.sub
+                if n == "from_compressed":
+                    return Sym("fc")
+            if isinstance(fv, Sym) and fv.op == "inter":
+                return Sym("res")
+            return super().call_hook(fv, args, kwargs, node, mod)
+
+        def attr(self, base, attr, node, mod):
+            from ..loader import Class
+            if isinstance(base, Class) and base.name == "Mask" and attr in ("FLEX", "NONE"):
+                return Sym("enum", "Mask", attr)
+            return super().attr(base, attr, node, mod)
+
+        def get_attr(self, obj, attr, node, mod):
+            if isinstance(obj, Sym) and obj.op == "ext" and obj.args[0] in ("np.ma", "numpy.ma") and attr == "nomask":
+                return Sym("nomask")
+            if isinstance(obj, Obj) and obj.label in ("ingrid", "outgrid") and attr in obj.fields:
+                return obj.fields[attr]
+            return super().get_attr(obj, attr, node, mod)
+
+        def ext_call(self, name, args, kwargs, node):
+            short = name.split(".")[-1]
+            if short in ("RegularGridInterpolator", "LinearNDInterpolator"):
+                return Sym("inter")
+            if short in ("isnan", "zeros"):
+                return Sym(short)
+            if short == "make_mask":
+                return OUTL
+            if short == "any":
+                return self.any_outlier
+            return super().ext_call(name, args, kwargs, node)
+
+        def isinstance(self, v, klass, node):
+            from ..loader import Class
+            if isinstance(klass, Class) and klass.name == "StructuredGrid":
+                return False
+            return super().isinstance(v, klass, node)
+
+        def compare(self, op, left, right, node):
+            if isinstance(op, (ast.Is, ast.IsNot)):
+                same = left is right or (isinstance(left, Sym) and isinstance(right, Sym) and left == right) or (left is None and right is None)
+                return same if isinstance(op, ast.Is) else not same
+            return super().compare(op, left, right, node)
+
+        def builtin(self, name, args, kwargs, node):
+            if name == "len":
+                return 3
+            return super().builtin(name, args, kwargs, node)
+
+    table = [
+        ("no mask requested", None, False, True, OUTL), ("flexible mask requested", FLEX, True, True, OUTL),
+        ("unmasked result requested, hull covers the domain", NONE_, False, True, NONE_),
+        ("unmasked result requested, targets outside the hull", NONE_, True, True, "FinamDataError"),
+        ("explicit mask covering everything outside the hull", GIVEN, True, True, GIVEN),
+        ("explicit mask leaving cells outside the hull unmasked", GIVEN, True, False, "FinamDataError"),
+    ]
+    worst = None
+    for name, mask, anyo, sub, want in table:
+        it = _L(repo, anyo, sub)
+        o = _regrid_obj(repo, "RegridLinear")
+        o.fields.update(output_mask=mask, fill_with_nearest=False, structured=False, inter=None, out_coords=None, out_ids=None, fill_ids=None)
+        try:
+            it.run(ug, [], self_obj=o)
+            got = o.fields["output_mask"]
+        except Raised as r:
+            got = r.name
+        except (Undecided, AnalysisError) as exc:
+            sink.unknown("R35", "linear-output-mask", ug, f"outside vocabulary: {exc}")
+            return
+        if got != want:
+            worst = worst or f"{name}: output mask becomes {got!r}, must be {want!r}"
+    sink.check(worst is None, "R35", "linear-output-mask", ug,
+               ok="linear regridding without filling: outliers are masked, an explicit / NONE mask is honoured or refused if it cannot be",
+               bad=(worst or "") + ": masked target cells must stay masked / the announced mask must be the requested one")
 
 
 # ====================================================================== R15 / R16
@@ -826,6 +957,8 @@ def r37e_masks_equal_layout(repo, sink):
         def call_hook(self, fv, args, kwargs, node, mod):
             if isinstance(fv, Sym) and fv.op == "canon_with":
                 m = args[0]
+                if isinstance(m, Sym) and m.op == "lmask_shared":
+                    return Sym("lmask_canon", (m.args[0], fv.args[0]))
                 if isinstance(m, Sym) and m.op == "lmask":
                     if m.args[1] != fv.args[0]:
                         return Sym("lmask_canon", ("wrong-grid", m.args[0], m.args[1], fv.args[0]))
@@ -836,14 +969,27 @@ def r37e_masks_equal_layout(repo, sink):
         def ext_call(self, name, args, kwargs, node):
             short = name.split(".")[-1]
             if short == "is_mask":
-                return isinstance(args[0], Sym) and args[0].op in ("lmask", "lmask_canon", "nomask")
+                return isinstance(args[0], Sym) and args[0].op in ("lmask", "lmask_canon", "lmask_shared", "nomask")
             if short == "any":
                 return True
+            if short == "shape" and isinstance(args[0], Sym):
+                m = args[0]
+                if m.op == "lmask":
+                    # the raw shape follows the layout of the grid the mask belongs to
+                    return (Sym("n0"), Sym("n1")) if m.args[1] == "lgrid1" else (Sym("n1"), Sym("n0"))
+                if m.op == "lmask_canon":
+                    return (Sym("n0"), Sym("n1"))
+                if m.op == "lmask_shared":
+                    return (Sym("n"), Sym("n"))
+            if short == "ndim":
+                return 2
             return super().ext_call(name, args, kwargs, node)
 
         def sym_compare(self, op, left, right, node):
-            if isinstance(left, Sym) and isinstance(right, Sym) and {left.op, right.op} <= {"lmask", "lmask_canon"}:
+            if isinstance(left, Sym) and isinstance(right, Sym) and {left.op, right.op} <= {"lmask", "lmask_canon", "lmask_shared"}:
                 if left.op == right.op == "lmask_canon":
+                    eq = left.args[0] == right.args[0]
+                elif left.op == right.op == "lmask_shared":
                     eq = left.args[0] == right.args[0]
                 elif left.op == right.op == "lmask":
                     eq = self.raw_equal
@@ -883,6 +1029,20 @@ def r37e_masks_equal_layout(repo, sink):
             if bool(got) != want:
                 worst = worst or (f"masks_compatible, incoming from {'downstream' if down else 'upstream'}, {name}: {bool(got)}, must be {want} "
                                   "(each mask has to be canonicalised with its own grid)")
+    # one mask *object* shared by two infos on differently laid-out (square) grids marks different cells
+    shared = Sym("lmask_shared", "S")
+    for down in (False, True):
+        it = _I(repo, True)
+        try:
+            got = it.run(mc, [shared, shared, down, Obj(label="lgrid1"), Obj(label="lgrid2")])
+            if bool(got):
+                worst = worst or ("masks_compatible accepts one and the same mask array for two differently laid-out grids "
+                                  f"(incoming from {'downstream' if down else 'upstream'}): the same array marks different cells there")
+            got = it.run(mc, [shared, shared, down, Obj(label="lgrid1"), Obj(label="lgrid1")])
+            if not bool(got):
+                worst = worst or "masks_compatible rejects identical masks on identical grids"
+        except (Raised, Undecided) as exc:
+            worst = worst or f"shared mask object: {exc}"
     sink.check(worst is None, "R37", "masks_equal-layout", f,
                ok="masks are compared in canonical form, each converted with its own grid",
                bad=(worst or "") + ": mask equality must be decided on the canonical (layout independent) form")
@@ -1050,3 +1210,139 @@ def r15c_copy_with(repo, sink):
     sink.check(worst is None, "R15", "copy_with-table", f,
                ok="copy_with overrides exactly the given fields; with use_none=False unset values never overwrite; the original stays untouched",
                bad=worst or "")
+
+
+# =========================================================================== R16u
+class _InfoStub(Obj):
+    """Info stand-in with copy_with semantics (R15c checks the real one)."""
+
+
+def _stub(units, grid, extra=None, label="info"):
+    o = _InfoStub(label=label)
+    o.fields.update(time=Sym("T_" + label), grid=grid, mask=Sym("M_" + label), meta={"units": units, **(extra or {})}, units=units)
+    return o
+
+
+class _GetInfoInterp(FinamInterp):
+    def __init__(self, repo, delivered):
+        super().__init__(repo)
+        self.delivered = delivered
+        self.requests = []
+
+    def decide(self, cond, node):
+        if isinstance(cond, Sym) and (str(cond.op).startswith("G_") or cond.op == "grid"):
+            return True  # grid objects are truthy
+        return super().decide(cond, node)
+
+    def get_attr(self, obj, attr, node, mod):
+        if isinstance(obj, _InfoStub):
+            if attr == "copy_with":
+                return Sym("copy_with", Ref(obj))
+            if attr in obj.fields:
+                return obj.fields[attr]
+            if attr in obj.fields["meta"]:
+                return obj.fields["meta"][attr]
+        if isinstance(obj, Sym) and attr in ("units", "to_reduced_units"):
+            return Sym("ufn", obj, attr) if attr == "to_reduced_units" else obj
+        if isinstance(obj, Sym) and str(obj.op).startswith("G_") and attr == "crs":
+            return None
+        return super().get_attr(obj, attr, node, mod)
+
+    def call_hook(self, fv, args, kwargs, node, mod):
+        if isinstance(fv, Sym) and fv.op == "copy_with":
+            src = fv.args[0].obj
+            use_none = kwargs.pop("use_none", True) if isinstance(kwargs, dict) else True
+            n = _InfoStub(label="copy")
+            n.fields.update(time=src.fields["time"], grid=src.fields["grid"], mask=src.fields["mask"], meta=dict(src.fields["meta"]))
+            for k, v in kwargs.items():
+                if v is None and not use_none:
+                    continue
+                if k in ("time", "grid", "mask"):
+                    n.fields[k] = v
+                else:
+                    n.fields["meta"][k] = v
+            n.fields["units"] = n.fields["meta"].get("units")
+            return n
+        if isinstance(fv, Sym) and fv.op == "ufn":
+            return fv.args[0]
+        if isinstance(fv, Closure) and getattr(fv.func, "name", "") == "exchange_info" and fv.self_obj is not None:
+            self.requests.append(args[0])
+            return self.delivered
+        if isinstance(fv, Closure) and getattr(fv.func, "name", "") in ("_create_transformer", "_update_grid_specs", "_check_and_set_out_mask"):
+            return None
+        return super().call_hook(fv, args, kwargs, node, mod)
+
+    def construct(self, cls, args, kwargs, node):
+        if cls.name in ("NoGrid", "UniformGrid"):
+            return Sym("grid", cls.name)
+        return super().construct(cls, args, kwargs, node)
+
+    def ext_call(self, name, args, kwargs, node):
+        if name.endswith(".Unit"):
+            return Sym("unit", args[0])
+        return super().ext_call(name, args, kwargs, node)
+
+    def compare(self, op, left, right, node):
+        if isinstance(op, (ast.Eq, ast.NotEq)) and isinstance(left, Sym) and isinstance(right, Sym):
+            eq = left == right
+            return eq if isinstance(op, ast.Eq) else not eq
+        return super().compare(op, left, right, node)
+
+
+def _mentions(v, atom):
+    if v == atom:
+        return True
+    if isinstance(v, Sym):
+        return any(_mentions(a, atom) for a in v.args)
+    if isinstance(v, (tuple, list)):
+        return any(_mentions(a, atom) for a in v)
+    return False
+
+
+def r16u_delivered_units(repo, sink):
+    """The info an adapter delivers describes the data the adapter returns: its units derive
+    from what the source delivered (possibly rewritten by the adapter), never from the
+    consumer's request."""
+    ad = repo.cls("Adapter")
+    n = 0
+    for c in repo.subclasses(ad):
+        f = c.methods.get("_get_info")
+        if f is None or repo.is_abstract(c) and c.name != "ARegridding":
+            continue
+        concrete = [k for k in repo.subclasses(c) if not repo.is_abstract(k)]
+        if not concrete:
+            continue
+        k = concrete[0]
+        u_req, u_in = Sym("u_requested"), Sym("u_delivered")
+        req = _stub(u_req, Sym("G_req"), {"extra": Sym("x_req")}, "req")
+        dlv = _stub(u_in, Sym("G_in"), {"extra": Sym("x_in")}, "dlv")
+        me = Obj(cls=k, label=k.name)
+        me.fields.update(logger=Logger(label="logger"), _per_time=True, grid=Sym("G_req"), input_grid=None, output_grid=None, output_mask=None,
+                         input_mask=None, downstream_mask=None, _is_initialized=True, transformer=None, input_meta=None, func=None)
+        it = _GetInfoInterp(repo, dlv)
+        try:
+            out = it.run(f, [req], self_obj=me)
+        except Raised as r:
+            if r.name == "FinamMetaDataError":
+                sink.ok("R16", f"delivered-units:{c.name}", f, "request refused on the abstract infos (metadata error): not decided here")
+                continue
+            sink.unknown("R16", f"delivered-units:{c.name}", f, f"raises {r.name}")
+            continue
+        except (Undecided, AnalysisError) as exc:
+            sink.unknown("R16", f"delivered-units:{c.name}", f, f"_get_info outside vocabulary: {exc}")
+            continue
+        n += 1
+        units = out.fields["meta"].get("units") if isinstance(out, _InfoStub) else None
+        extra = out.fields["meta"].get("extra") if isinstance(out, _InfoStub) else None
+        why = None
+        if not isinstance(out, _InfoStub):
+            why = f"returns {out!r}"
+        elif _mentions(units, u_req):
+            why = (f"delivers units {units!r} taken from the consumer's request: the adapter's data is still in the source's units, so the "
+                   "values are relabelled instead of converted (1500 m arrive as 1500 km)")
+        elif not (_mentions(units, u_in) or (isinstance(units, str) or units is None or (isinstance(units, Sym) and units.op == "unit"))):
+            why = f"delivers units {units!r} that derive neither from the source's info nor from a constant"
+        elif _mentions(extra, Sym("x_req")):
+            why = "delivers extra metadata taken from the request instead of the source"
+        sink.check(why is None, "R16", f"delivered-units:{c.name}", f, ok=f"delivered units {units!r} derive from the source's info", bad=why or "")
+    sink.floor("R16", "_get_info overrides interpreted", n, 4)
